@@ -408,6 +408,8 @@ def batched_heights(res, c, g, p, model, nh, v0):
     where = {}
     slack = 1e-12 * max(1.0, max(g["c"]))
     for pos, x in enumerate(base):
+        if pos < n:
+            continue  # node heights are the n sampling times followed by the n - 1 coalescent times
         for j, t in enumerate(g["c"]):
             if abs(x - t) <= slack and j not in where.values():
                 where[pos] = j
@@ -514,9 +516,12 @@ def scale_body(c):
     m2, _ = evaluate(cc)
     w = float(arr(m2()).reshape(-1)[0])
     want = v - (n - 1) * math.log(f)
-    _, err = reference(g, p)
-    _, err2 = reference(cc["g"], pp)
-    if abs(w - want) > 4e-9 * max(1.0, abs(want), abs(v)) + 8 * (err + err2):
+    r1, err = reference(g, p)
+    r2, err2 = reference(cc["g"], pp)
+    # calendar dates: each model sees max(date) - date in double arithmetic, a rounding of the sampling times that is
+    # not the same relative size before and after scaling; its effect on either value is measured with the oracle
+    cal = abs(reference(effective_genealogy(c), p)[0] - r1) + abs(reference(effective_genealogy(cc), pp)[0] - r2)
+    if abs(w - want) > 4e-9 * max(1.0, abs(want), abs(v)) + 8 * (err + err2) + 2.0 * cal:
         return res.fail("mismatch", {"scaled": w, "expected": want, "factor": f})
     return res
 
